@@ -1,9 +1,10 @@
 (* Extraction of the cache model (C04): ExtrOcamlBasic only, N stays the
-   extracted datatype, no Extract Constant.  Z.of_N and Z.to_nat are listed
-   only so that the types z and nat mentioned by the shared ocaml/zutil.ml
-   exist in the extracted module. *)
+   extracted datatype, no Extract Constant.  The driver runs the model of the
+   code as it is now (now_*: the interpreter applied to Gen/CacheTable.v).
+   Z.of_N and Z.to_nat are listed only so that the types z and nat mentioned
+   by the shared ocaml/zutil.ml exist in the extracted module. *)
 From Coq Require Import NArith ZArith List.
 From Coq Require Import ExtrOcamlBasic.
-From VV Require Import Cache.CacheDefs.
-Extraction "cache_model.ml" fresh find insert clear clear_one step proxy_eval dump warp
-  clears_fast save load M32 Z.of_N Z.to_nat.
+From VV Require Import Cache.CacheDefs Cache.TableTypes Cache.CacheGenDefs Gen.CacheTable Cache.CacheGenDefs2.
+Extraction "cache_model.ml" now_fresh now_find now_insert now_clear now_clear_one now_step now_proxy_eval
+  now_dump now_save now_load now_proxy_save now_proxy_load warp clears_fast M32 Z.of_N Z.to_nat.
